@@ -255,70 +255,92 @@ theorem sessionHandle_keeps (sv : Server) (ss : Session) (cid : Nat) (r : Req) :
 theorem mem_sessions_of_find {sv : Server} {sid : Nat} {ss : Session} (h : sv.findSession sid = some ss) :
     ss ∈ sv.sessions := List.mem_of_find?_eq_some h
 
-theorem inv_inSessionRun {sv : Server} (h : Inv sv) (ss : Session) (cid : Nat) (r : Req) (now : Int)
-    (hs : sv.findSession ss.id = some ss) (hc : ∀ c, sv.findConn cid = some c → SameAddr c ss) :
-    Inv (inSessionRun sv ss cid r now).1 := by
-  unfold inSessionRun
-  simp only
-  generalize hres : sessionHandle sv { ss with lastReq := now,
-      conns := if ss.conns.contains cid then ss.conns else ss.conns ++ [cid] } cid r = res
-  have hk := sessionHandle_keeps sv { ss with lastReq := now,
-      conns := if ss.conns.contains cid then ss.conns else ss.conns ++ [cid] } cid r
-  rw [hres] at hk
-  obtain ⟨k1, k2, k3⟩ := hk
-  simp only at k1 k2 k3
-  -- sv1
+/-- what `inSessionRun` does once `handleRequestInner` has answered -/
+def afterHandle (sv : Server) (ss : Session) (cid : Nat) (r : Req) (res : SessRes) : Server × Nat × Bool :=
+  let sv1 := sv.setSession res.ss
+  let sv2 := if res.stop then unregister sv1 res.ss else sv1
+  let sv3 := match res.start with
+    | some recording => register sv2 res.ss recording
+    | none => sv2
+  if !res.err && r.method == .teardown then
+    let ss2 := { res.ss with conns := res.ss.conns.filter (· != cid) }
+    let sv4 := (sv3.setSession ss2).setConnSession cid none
+    (closeSession sv4 ss2, res.status, false)
+  else
+    (sv3.setConnSession cid (some ss.id), res.status, res.err)
+
+theorem inSessionRun_eq (sv : Server) (ss : Session) (cid : Nat) (r : Req) (now : Int) :
+    inSessionRun sv ss cid r now = afterHandle sv ss cid r (sessionHandle sv (touch ss cid now) cid r) := rfl
+
+theorem unregister_fields (sv : Server) (ss : Session) :
+    (unregister sv ss).sessions = sv.sessions ∧ (unregister sv ss).conns = sv.conns ∧
+    (unregister sv ss).nextSid = sv.nextSid := by
+  unfold unregister; split <;> exact ⟨rfl, rfl, rfl⟩
+
+theorem register_fields (sv : Server) (ss : Session) (b : Bool) :
+    (register sv ss b).sessions = sv.sessions ∧ (register sv ss b).conns = sv.conns ∧
+    (register sv ss b).nextSid = sv.nextSid := by
+  unfold register; split <;> exact ⟨rfl, rfl, rfl⟩
+
+/-- the three intermediate servers agree with `sv.setSession res.ss` on everything the invariant sees -/
+theorem listeners_only (sv1 : Server) (res : SessRes) :
+    let sv3 := match res.start with
+      | some recording => register (if res.stop then unregister sv1 res.ss else sv1) res.ss recording
+      | none => (if res.stop then unregister sv1 res.ss else sv1)
+    sv3.sessions = sv1.sessions ∧ sv3.conns = sv1.conns ∧ sv3.nextSid = sv1.nextSid := by
+  intro sv3
+  have a : ∀ x : Server, (x = if res.stop then unregister sv1 res.ss else sv1) →
+      x.sessions = sv1.sessions ∧ x.conns = sv1.conns ∧ x.nextSid = sv1.nextSid := by
+    intro x hx
+    cases hst : res.stop with
+    | true => rw [hst] at hx; subst hx; exact unregister_fields sv1 res.ss
+    | false => rw [hst] at hx; subst hx; exact ⟨rfl, rfl, rfl⟩
+  obtain ⟨a1, a2, a3⟩ := a _ rfl
+  show (match res.start with
+      | some recording => register (if res.stop then unregister sv1 res.ss else sv1) res.ss recording
+      | none => (if res.stop then unregister sv1 res.ss else sv1)).sessions = sv1.sessions ∧
+    (match res.start with
+      | some recording => register (if res.stop then unregister sv1 res.ss else sv1) res.ss recording
+      | none => (if res.stop then unregister sv1 res.ss else sv1)).conns = sv1.conns ∧
+    (match res.start with
+      | some recording => register (if res.stop then unregister sv1 res.ss else sv1) res.ss recording
+      | none => (if res.stop then unregister sv1 res.ss else sv1)).nextSid = sv1.nextSid
+  cases res.start with
+  | none => exact ⟨a1, a2, a3⟩
+  | some b =>
+    obtain ⟨b1, b2, b3⟩ := register_fields (if res.stop then unregister sv1 res.ss else sv1) res.ss b
+    exact ⟨b1.trans a1, b2.trans a2, b3.trans a3⟩
+
+theorem findSession_congr {sv sv' : Server} (h : sv'.sessions = sv.sessions) (sid : Nat) :
+    sv'.findSession sid = sv.findSession sid := by unfold findSession; rw [h]
+
+theorem findConn_congr {sv sv' : Server} (h : sv'.conns = sv.conns) (cid : Nat) :
+    sv'.findConn cid = sv.findConn cid := by unfold findConn; rw [h]
+
+theorem inv_afterHandle {sv : Server} (h : Inv sv) (ss : Session) (cid : Nat) (r : Req) (res : SessRes)
+    (hs : sv.findSession ss.id = some ss) (hc : ∀ c, sv.findConn cid = some c → SameAddr c ss)
+    (k1 : res.ss.id = ss.id) (k2 : res.ss.authorIP = ss.authorIP) (k3 : res.ss.authorZone = ss.authorZone) :
+    Inv (afterHandle sv ss cid r res).1 := by
   have h1 : Inv (sv.setSession res.ss) := inv_setSession h res.ss (by
     intro o ho; rw [k1, hs] at ho; cases ho; exact ⟨k2.symm, k3.symm⟩)
   have hf1 : (sv.setSession res.ss).findSession ss.id = some res.ss := by
     have := findSession_setSession_self sv res.ss ss (by rw [k1]; exact hs)
     rw [k1] at this; exact this
-  -- sv2, sv3: listeners only
-  have h2 : Inv (if res.stop then unregister (sv.setSession res.ss) res.ss else sv.setSession res.ss) := by
-    split
-    · exact inv_unregister h1 _
-    · exact h1
-  have e2s : ∀ sid, (if res.stop then unregister (sv.setSession res.ss) res.ss else sv.setSession res.ss).findSession sid
-      = (sv.setSession res.ss).findSession sid := by
-    intro sid; split
-    · unfold unregister; split <;> rfl
-    · rfl
-  have e2c : ∀ c', (if res.stop then unregister (sv.setSession res.ss) res.ss else sv.setSession res.ss).findConn c'
-      = sv.findConn c' := by
-    intro c'; split
-    · unfold unregister; split <;> rfl
-    · rfl
-  have e2n : (if res.stop then unregister (sv.setSession res.ss) res.ss else sv.setSession res.ss).nextSid = sv.nextSid := by
-    split
-    · unfold unregister; split <;> rfl
-    · rfl
-  generalize hsv2 : (if res.stop then unregister (sv.setSession res.ss) res.ss else sv.setSession res.ss) = sv2 at h2 e2s e2c e2n
-  have h3 : Inv (match res.start with | some recording => register sv2 res.ss recording | none => sv2) := by
-    split
-    · exact inv_register h2 _ _
-    · exact h2
-  have e3s : ∀ sid, (match res.start with | some recording => register sv2 res.ss recording | none => sv2).findSession sid
-      = (sv.setSession res.ss).findSession sid := by
-    intro sid; rw [← e2s]; split
-    · unfold register; split <;> rfl
-    · rfl
-  have e3c : ∀ c', (match res.start with | some recording => register sv2 res.ss recording | none => sv2).findConn c'
-      = sv.findConn c' := by
-    intro c'; rw [← e2c]; split
-    · unfold register; split <;> rfl
-    · rfl
-  have e3n : (match res.start with | some recording => register sv2 res.ss recording | none => sv2).nextSid = sv.nextSid := by
-    rw [← e2n]; split
-    · unfold register; split <;> rfl
-    · rfl
-  generalize hsv3 : (match res.start with | some recording => register sv2 res.ss recording | none => sv2) = sv3 at h3 e3s e3c e3n
+  obtain ⟨e1, e2, e3⟩ := listeners_only (sv.setSession res.ss) res
+  unfold afterHandle
+  simp only at e1 e2 e3 ⊢
+  generalize (match res.start with
+      | some recording => register (if res.stop then unregister (sv.setSession res.ss) res.ss else sv.setSession res.ss) res.ss recording
+      | none => (if res.stop then unregister (sv.setSession res.ss) res.ss else sv.setSession res.ss)) = sv3 at e1 e2 e3 ⊢
+  have h3 : Inv sv3 := inv_congr h1 e1 e2 e3
+  have fs3 : ∀ sid, sv3.findSession sid = (sv.setSession res.ss).findSession sid := findSession_congr e1
+  have fc3 : ∀ c', sv3.findConn c' = sv.findConn c' := fun c' => (findConn_congr e2 c').trans rfl
   split
-  · -- TEARDOWN
-    apply inv_closeSession
+  · apply inv_closeSession
     apply inv_setConnSession
     · apply inv_setSession h3
       intro o ho
-      have : sv3.findSession res.ss.id = some res.ss := by rw [e3s, k1]; exact hf1
+      have : sv3.findSession res.ss.id = some res.ss := by rw [fs3, k1]; exact hf1
       simp only at ho
       rw [this] at ho; cases ho; exact ⟨rfl, rfl⟩
     · intro c _ own hx; simp at hx
@@ -327,12 +349,124 @@ theorem inv_inSessionRun {sv : Server} (h : Inv sv) (ss : Session) (cid : Nat) (
     have hx' : own = ss.id := by simpa using hx.symm
     subst hx'
     refine ⟨?_, fun o ho => ?_⟩
-    · rw [e3n]; exact h.sid_lt ss (mem_sessions_of_find hs)
-    · rw [e3s, hf1] at ho
+    · rw [e3]; exact h.sid_lt ss (mem_sessions_of_find hs)
+    · rw [fs3, hf1] at ho
       cases ho
-      have := hc c (by rw [← e3c]; exact hfc)
+      have := hc c (by rw [← fc3]; exact hfc)
       unfold SameAddr at this ⊢
       rw [k2, k3]; exact this
+
+theorem inv_inSessionRun {sv : Server} (h : Inv sv) (ss : Session) (cid : Nat) (r : Req) (now : Int)
+    (hs : sv.findSession ss.id = some ss) (hc : ∀ c, sv.findConn cid = some c → SameAddr c ss) :
+    Inv (inSessionRun sv ss cid r now).1 := by
+  rw [inSessionRun_eq]
+  obtain ⟨k1, k2, k3⟩ := sessionHandle_keeps sv (touch ss cid now) cid r
+  exact inv_afterHandle h ss cid r _ hs hc k1 k2 k3
+
+theorem inv_inSession {sv : Server} (h : Inv sv) (c : Conn) (r : Req) (create : Bool) (now : Int)
+    (hc : sv.findConn c.id = some c) : Inv (inSession sv c r create now).1 := by
+  unfold inSession
+  cases hcs : c.session with
+  | none =>
+    simp only
+    cases hf : r.sid.bind sv.findSession with
+    | some ss =>
+      simp only
+      split
+      · exact h
+      · rename_i hchk
+        have hchk' : ipEqual c.ip ss.authorIP = true ∧ c.zone = ss.authorZone := by
+          simpa using hchk
+        obtain ⟨sid, _, hfs⟩ := Option.bind_eq_some_iff.1 hf
+        have hid := findSession_id hfs
+        apply inv_inSessionRun h ss c.id r now (by rw [hid]; exact hfs)
+        intro c' hc'
+        rw [hc] at hc'; cases hc'
+        exact hchk'
+    | none =>
+      simp only
+      split
+      · exact h
+      · -- a new session, authored by `c`
+        have hnew := inv_addSession h
+          { id := sv.nextSid, author := c.id, authorIP := c.ip, authorZone := c.zone, conns := [c.id], lastReq := now } rfl
+        apply inv_inSessionRun hnew
+        · -- the new session is found under its id
+          show List.find? (fun s => s.id == sv.nextSid) (sv.sessions ++ [_]) = some _
+          rw [List.find?_append]
+          have : sv.sessions.find? (fun s => s.id == sv.nextSid) = none := by
+            apply List.find?_eq_none.2
+            intro s hs
+            have := h.sid_lt s hs
+            have hne : s.id ≠ sv.nextSid := by omega
+            simpa using hne
+          rw [this]; simp
+        · intro c' hc'
+          have : c' = c := by
+            have e : ({ sv with sessions := sv.sessions ++ [({ id := sv.nextSid, author := c.id, authorIP := c.ip, authorZone := c.zone, conns := [c.id], lastReq := now } : Session)], nextSid := sv.nextSid + 1 } : Server).findConn c.id = sv.findConn c.id := rfl
+            rw [e, hc] at hc'; cases hc'; rfl
+          subst this
+          exact ⟨ipEqual_refl _, rfl⟩
+  | some own =>
+    simp only
+    split
+    · exact h
+    · cases hf : sv.findSession own with
+      | none => exact h
+      | some ss =>
+        simp only
+        have hid := findSession_id hf
+        apply inv_inSessionRun h ss c.id r now (by rw [hid]; exact hf)
+        intro c' hc'
+        rw [hc] at hc'; cases hc'
+        exact (h.link c.id c hc own hcs).2 ss hf
+
+theorem inv_route {sv : Server} (h : Inv sv) (c : Conn) (r : Req) (now : Int)
+    (hc : sv.findConn c.id = some c) : Inv (route sv c r now).1 := by
+  unfold route
+  cases r.method <;> simp only <;> (try split) <;> first | exact h | exact inv_inSession h c r _ now hc
+
+theorem inv_removeConnFromSession {sv : Server} (h : Inv sv) (ss : Session) (cid : Nat)
+    (hs : sv.findSession ss.id = some ss) : Inv (removeConnFromSession sv ss cid) := by
+  unfold removeConnFromSession
+  simp only
+  have h1 : Inv (sv.setSession { ss with conns := ss.conns.filter (· != cid) }) :=
+    inv_setSession h _ (by intro o ho; simp only at ho; rw [hs] at ho; cases ho; exact ⟨rfl, rfl⟩)
+  split
+  · exact inv_closeSession h1 _
+  · exact h1
+
+theorem inv_closeConn {sv : Server} (h : Inv sv) (cid : Nat) : Inv (sv.closeConn cid) := by
+  unfold closeConn
+  cases hf : sv.findConn cid with
+  | none => exact h
+  | some c =>
+    simp only
+    have hd := inv_dropConn h cid
+    cases c.session with
+    | none => exact hd
+    | some sid =>
+      simp only
+      cases hfs : (sv.dropConn cid).findSession sid with
+      | none => exact hd
+      | some ss =>
+        simp only
+        have hid := findSession_id hfs
+        exact inv_removeConnFromSession hd ss cid (by rw [hid]; exact hfs)
+
+/-- **the invariant is preserved by every request** -/
+theorem inv_request {sv : Server} (h : Inv sv) (cid : Nat) (r : Req) (now : Int) :
+    Inv (sv.request cid r now).1 := by
+  unfold request
+  cases hf : sv.findConn cid with
+  | none => exact h
+  | some c =>
+    simp only
+    have hid := findConn_id hf
+    have hr := inv_route h c r now (by rw [hid]; exact hf)
+    split
+    · exact inv_closeConn hr cid
+    · exact hr
 
 end Server
 end Rtsp.Peer
